@@ -46,6 +46,9 @@ func draw(t *rapid.T) sim.ChainCase {
 			} else {
 				sim.SameBlockScenarios(g, b)
 			}
+			if rapid.IntRange(0, 3).Draw(g.T, "dataOnly") == 0 {
+				b.DataOnly() // repeated byte-identical transactions: duplicate hashes in the outline and in the candidate pool
+			}
 		},
 	})
 	c, err := g.Case.Normalize()
@@ -200,6 +203,7 @@ func checkBlock(ch *sim.Chain, parent consensus.State, b types.Block, bs consens
 		var omitV1 []types.Transaction
 		var omitV2 []types.V2Transaction
 		var wantMissing []types.Hash256
+		omitted := map[types.Hash256]bool{}
 		for i := 0; i < nT; i++ {
 			if mask&(1<<uint(i)) != 0 {
 				if i < len(b.Transactions) {
@@ -207,6 +211,13 @@ func checkBlock(ch *sim.Chain, parent consensus.State, b types.Block, bs consens
 				} else {
 					omitV2 = append(omitV2, sim.CloneV2(txns[i-len(b.Transactions)]))
 				}
+				omitted[hashOfIdx(i)] = true
+			}
+		}
+		// OutlineBlock omits by hash: a byte-identical transaction that occurs again in the block (data-only
+		// transactions may) is omitted at every position, and every empty slot is reported
+		for i := 0; i < nT; i++ {
+			if omitted[hashOfIdx(i)] {
 				wantMissing = append(wantMissing, hashOfIdx(i))
 			}
 		}
@@ -256,8 +267,17 @@ func checkBlock(ch *sim.Chain, parent consensus.State, b types.Block, bs consens
 					p2 = append(p2, pv2[i])
 				}
 			}
+			// whatever the pool offers fills every slot with that hash (decoys from earlier blocks may be
+			// byte-identical to a data-only transaction of this block)
+			offered := map[types.Hash256]bool{}
+			for _, t := range append(append([]types.Transaction(nil), p1...), decoysV1...) {
+				offered[t.MerkleLeafHash()] = true
+			}
+			for _, t := range append(append([]types.V2Transaction(nil), p2...), decoys...) {
+				offered[t.MerkleLeafHash()] = true
+			}
 			for _, h := range wantMissing {
-				if !keep[h] {
+				if !offered[h] {
 					still = append(still, h)
 				}
 			}
@@ -281,6 +301,9 @@ func checkBlock(ch *sim.Chain, parent consensus.State, b types.Block, bs consens
 			return stats.Failf("C18/outline-complete", "completed block differs from the original (subset %b)", mask)
 		}
 		rec.Extra("outline_subsets", 1)
+		if len(wantMissing) > len(omitted) {
+			rec.Label("outline:repeated-transaction-omitted")
+		}
 	}
 
 	ls := leavesOf(txns)
